@@ -502,7 +502,7 @@ fn case(src: &mut Src, ctx: &mut Ctx) -> Result<(), Fail> {
 pub fn prop() -> Prop {
     Prop {
         id: "C05",
-        parts: vec![Part { name: "sender", case, quick: 40_000, thorough: 2_000_000 }],
+        parts: vec![Part { name: "sender", case, quick: 400_000, thorough: 10_000_000 }],
         phases: vec![],
         smoltcp_panic_is_violation: true,
         rule: "one TCP socket (tx buffer 1..=200000, MTU/Nagle/timestamps/congestion control drawn, active or passive open) whose application writes a pseudo-random stream and closes, facing a scripted peer that announces MSS {absent,0,1,47,48,100,536,1460,65535} and window scale {absent,0..14} and then sends only empty segments with drawn ACK numbers (current, old, partial, stale, far future) and windows (zero, tiny, below flight size, huge, repeated), triple duplicate ACKs and RTO-length silences; every emitted segment is decoded independently and checked against the window/MSS delivered so far, the written bytes, contiguity, FIN placement and SYN/scaled window fields; non-trivial = >= 3 data segments and at least one retransmission or change of the learned window; distinct by digest of (config, totals)",
